@@ -155,11 +155,11 @@ PROPS = {
         'random trees x function tables (all tracing, one operator removed, one overridden, both); non-trivial = tree rendered or correctly refused',
         '', []),
     'C16': P(
-        ['C16_next_token_lossless', 'C16_stream_is_a_segmentation', 'C16_finitely_many_tokens', 'C16_lexical_error_rejects'],
+        ['C16_next_token_lossless', 'C16_stream_is_a_segmentation', 'C16_finitely_many_tokens', 'C16_lexical_error_rejects', 'C16_peek_is_next', 'C16_eof_forever'],
         [('lex', 8000), ('corpus', 0)],
         [('lex', 150000), ('corpus', 0)],
         LEX + ['parse'],
-        'full for the stream (lossless segmentation, termination, error stops, error rejects) for every rune classification; Peek = next read and EOF-forever are decided on Next/Peek scripts by the correspondence and C16_check (backup() is modelled, not verified).',
+        'full: lossless segmentation, termination, error stops, error rejects, Peek = next read in every reachable state, EOF forever after the end or an error, all for every rune classification. The Lexer-object model (lstate/lnext/lpeek) is tied to lex.go by Next/Peek scripts; backup() via DecodeLastRune is modelled as undoing the last next, not verified.',
         'byte strings over an alphabet with multi-byte runes, invalid UTF-8, NUL, every delimiter, with Next/Peek scripts; non-trivial = stream reached EOF or an error',
         '', []),
 }
